@@ -9,6 +9,8 @@ clause -> what is compared
 Emission order is deliberately not compared.
 """
 
+import itertools
+
 from .. import common, e1, space
 
 ID = 'C04'
@@ -23,9 +25,9 @@ BUDGET = {'quick': 240, 'thorough': 3000}
 
 def shards(tier):
     if tier == 'quick':
-        return [('DEEP', 1200)] + e1.std_shards(tier, with_p=True, with_big=True) + \
+        return [('DEEP', 1200)] + e1.std_shards(tier, with_p=True, with_big=True, with_hist=True) + \
             space.w_shards(sizes=(31, 65), kinds=('ordinal',))
-    sh = e1.std_shards(tier, with_p=True, with_big=True, extra_thorough_shapes=((4, 5), (5, 4)))
+    sh = e1.std_shards(tier, with_p=True, with_big=True, with_hist=True, extra_thorough_shapes=((4, 5), (5, 4)))
     return sh + [s for s in space.w_shards() if s not in sh] + [('W', 'ordinal', 1200)]
 
 
@@ -83,8 +85,10 @@ def check_case(case, ctr):
             fn = getattr(algorithms, name)
             norm = (lambda x: (x.extent.members(), x.intent.members())) if name == 'iterconcepts' \
                 else (lambda x: (x[0].members(), x[1].members()))
-            it1, it2 = iter(fn(ctx)), iter(fn(ctx))
-            half = iter(fn(ctx))
+            # on a context none of whose enumerations has ever been run to the end
+            cx = case.fresh_ctx() if case.variant == 'fresh' else ctx
+            it1, it2 = iter(fn(cx)), iter(fn(cx))
+            half = iter(fn(cx))
             next(half, None)
             got1, got2 = [], []
             for a_, b_ in zip(it1, it2):
@@ -93,10 +97,35 @@ def check_case(case, ctr):
             got1.extend(norm(x) for x in it1)
             got2.extend(norm(x) for x in it2)
             ctr['calls'] += 3
-            for got in (got1, got2, [norm(x) for x in fn(ctx)]):
+            for got in (got1, got2, [norm(x) for x in fn(cx)]):
                 if len(got) != len(set(got)) or set(got) != exp:
                     bad('concept-set', name + '-two-live-enumerations', got)
                     return V
+    # two live enumerations of one (fresh) context under every schedule with two switches:
+    # the first is advanced a items, the second b items, then the first is finished, then the second
+    if case.n * case.m <= 9 and case.variant == 'fresh' and case.labeling == space.ASC:
+        K = len(exp)
+        for name in ('iterconcepts', 'fast_generate_from', 'fcbo_dual'):
+            fn = getattr(algorithms, name)
+            norm = (lambda x: (x.extent.members(), x.intent.members())) if name == 'iterconcepts' \
+                else (lambda x: (x[0].members(), x[1].members()))
+            for a_n in range(K + 1):
+                for b_n in range(K + 1):
+                    cx = case.fresh_ctx()
+                    it1, it2 = iter(fn(cx)), iter(fn(cx))
+                    g1 = [norm(x) for x in itertools.islice(it1, a_n)]
+                    g2 = [norm(x) for x in itertools.islice(it2, b_n)]
+                    g1.extend(norm(x) for x in it1)
+                    g2.extend(norm(x) for x in it2)
+                    ctr['calls'] += 2
+                    ctr['hit_two_enumeration_schedules'] += 1
+                    for got in (g1, g2):
+                        if len(got) != len(set(got)) or set(got) != exp:
+                            V.append(common.violation(
+                                ID, 'concept-set', case.ident(
+                                    producer=name, schedule=f'first {a_n}, second {b_n}, '
+                                    'finish first, finish second'), sorted(exp), sorted(got)))
+                            return V
     # a returned list is the caller's: changing it must not change a later answer
     first = algorithms.get_concepts(ctx)
     if isinstance(first, list):
